@@ -29,7 +29,7 @@ RULE = ("random release tables (1-12 rows, 1-5 distinct times on the model time 
         "events at different steps or rows outside the window or mult != 1; distinct by (mode, direction, step/mult pattern).")
 MANDATORY = ["discrete_forward", "discrete_reversed", "continuous_forward", "continuous_reversed",
              "row_before_start", "row_at_or_after_stop", "mult_zero", "mult_gt1", "several_rows_per_time", "lonlat_position",
-             "names_in_config", "particle_variable_column", "release_hook_events", "time_typed_column_values"]
+             "names_in_config", "particle_variable_column", "release_hook_events", "time_typed_column_values", "column_with_configured_default"]
 ASSUMPTIONS = ["release times on the model time grid and sorted in simulation order (as the property quantifies)",
                "still water: particles stay where they were released, so the first appearance shows the release position",
                "at least one particle is released inside the window (empty windows belong to C20)"]
@@ -191,11 +191,17 @@ def build_scenario(case: dict[str, Any]) -> dict[str, Any]:
     if case["release_time_pv"]:
         st_p["release_time"] = "time"
         out_p["release_time"] = "f8"
+    # half of the cases configure default values for the extra columns too: a value in the release file must win over the default
+    defaults = {}
+    if case["idx"] % 2:
+        for name, typ, kind in case["extras"]:
+            if typ != "time":
+                defaults[name] = -7 if typ == "int" else -7.5
     run = dict(
         start=case["start"], stop=case["stop"], dt=case["dt"], reversed=case["reversed"], advection="EF",
         release=dict(columns=case["columns"], rows=case["rows"], header=case["header"], continuous=case["continuous"],
                      freq=case["freq_steps"] * case["dt"]),
-        state=dict(instance_variables=st_i, particle_variables=st_p),
+        state=dict(instance_variables=st_i, particle_variables=st_p, default_values=defaults),
         output=dict(period=case["dt"], instance=out_i, particle=out_p),
     )
     return dict(world=w, run=run)
@@ -244,6 +250,7 @@ def run_case(case: dict[str, Any], wd: Path) -> dict[str, Any]:
     sit["names_in_config"] = int(not case["header"])
     sit["particle_variable_column"] = int(any(e[2] == "particle" for e in case["extras"]) or case["release_time_pv"])
     sit["release_hook_events"] = len(events)
+    sit["column_with_configured_default"] = int(case["idx"] % 2 == 1 and any(e[1] != "time" for e in case["extras"]))
     counters = {"ParticleReleaser.update calls": nhook, "expected_particles": len(exp)}
     sample = dict(mode=mode, dt=dt, nsteps=case["nsteps"], columns=cols, rows=case["rows"][:4], n_rows=len(case["rows"]),
                   expected_particles=len(exp), release_events_observed=events[:6])
